@@ -194,6 +194,9 @@ func (c *C) Add(k string, n int) {
 // Get returns an integer coverage key.
 func (c *C) Get(k string) int { c.mu.Lock(); defer c.mu.Unlock(); v, _ := c.cov[k].(int); return v }
 
+// GetAny returns a coverage key as recorded.
+func (c *C) GetAny(k string) any { c.mu.Lock(); defer c.mu.Unlock(); return c.cov[k] }
+
 // Hist increments histogram[name][bucket].
 func (c *C) Hist(name, bucket string) {
 	c.mu.Lock()
